@@ -1309,8 +1309,10 @@ class Exec:
         post.alloc = a
         rs = self.fresh_results(ins)
         renv = dict(env)
-        if len(rs) == 1:
+        if len(rs) >= 1:
             renv['result'] = rs[0]
+        if len(rs) >= 2 and rs[-1].ts == 'error':
+            renv.setdefault('err', rs[-1])
         for i, r in enumerate(rs):
             renv['result%d' % i] = r
         if cf is not None:
@@ -1513,8 +1515,11 @@ def verify_function(vc, func, contract):
     for k, (cond, rs, rst, line, bidx) in enumerate(rets):
         renv = dict(env)
         rs = [ex.adapt(r, func.results[i]) for i, r in enumerate(rs)]
-        if len(rs) == 1:
+        rs = [V(r.term, r.sort, func.results[i]) for i, r in enumerate(rs)]
+        if len(rs) >= 1:
             renv['result'] = rs[0]
+        if len(rs) >= 2 and func.results[-1] == 'error':
+            renv.setdefault('err', rs[-1])
         for i, r in enumerate(rs):
             renv['result%d' % i] = r
         for nme, r in zip(func.resultnames, rs):
